@@ -43,7 +43,9 @@ def _kernel(variant, beta_kind, beta_pre, beta_post):
                 "+ future_cost_vals[i + 1, c2]))").format(**names)
     tv = ("forall(lambda c: implies(0 <= c and c < {K}, total_vals[c] == future_cost_vals[i + 1, c] + "
           "label_assignment_cost[i + 1, c] + label_switching_cost[i]))").format(**names)
-    contract(L + 'assign_point_cluster_labels' + variant, props=['C01', 'C15', 'C18', 'C19'],
+    # also C06 (reported cost = total of the returned path) and C07 (entry i of a vector beta prices the pair (i, i+1): the
+    # zeros of the series-boundary mask make exactly the boundary switches free)
+    contract(L + 'assign_point_cluster_labels' + variant, props=['C01', 'C15', 'C18', 'C19', 'C06', 'C07'],
              params=dict(label_assignment_cost='arr2[real]', label_switching_cost=beta_kind),
              returns='tuple[list[int],real]',
              requires=[_T + " >= 1", _K + " >= 1", _K + " <= 65536"] + beta_pre,
